@@ -1,6 +1,9 @@
 pub mod c07;
 pub mod c08;
 pub mod c09;
+pub mod c13;
+pub mod c14;
+pub mod c20;
 pub mod certfam;
 
 pub fn run(prop: &str, tier: &str, replay: Option<&str>) -> i32 {
@@ -9,6 +12,9 @@ pub fn run(prop: &str, tier: &str, replay: Option<&str>) -> i32 {
         "C07" => c07::run(prop, tier, replay),
         "C08" => c08::run(prop, tier, replay),
         "C09" => c09::run(prop, tier, replay),
+        "C13" => c13::run(prop, tier, replay),
+        "C14" => c14::run(prop, tier, replay),
+        "C20" => c20::run(prop, tier, replay),
         _ => {
             eprintln!("unknown property {}", prop);
             2
